@@ -10,7 +10,8 @@ from props.C08 import asset_steps
 THEOREMS = ['C06_min_runtime_exact', 'C06_min_downtime_exact', 'C06_capacity_when_on_off', 'C06_ramp_between_steps', 'C06_first_step_ramp',
             'C06_start_flags', 'C06_heat_share', 'C06_fuel_balance', 'C06_plant_downtime_rows_exact', 'C06_plant_runtime_rows_sound',
             'C06_cap_row_shape', 'C06_capacity_outside_profiles', 'C06_start_profile_bounds', 'C06_shutdown_profile_bounds',
-            'C06_start_shutdown_flags_exact', 'C06_ramp_down_applies', 'C06_ramp_down_released', 'C06_ramp_up_applies', 'C06_ramp_up_released']
+            'C06_start_shutdown_flags_exact', 'C06_ramp_down_applies', 'C06_ramp_down_released', 'C06_ramp_up_applies', 'C06_ramp_up_released',
+            'C06_profile_conversion_within', 'C06_profile_conversion_length']
 CFG = {'freqs': ['h', 'h', '2h'], 'units': ['h'], 'tzs': [None], 'T': (4, 8), 'p_unaligned_end': 0.0, 'p_inflow': 0.0}
 
 
@@ -249,7 +250,7 @@ def pattern_oracle(ctx, sp, o):
 
 
 def run(ctx):
-    if not ctx.proof_gate(THEOREMS, ['PlantProofs.vo', 'Plant.vo', 'PlantRows.vo', 'PlantProfiles.vo']):
+    if not ctx.proof_gate(THEOREMS, ['PlantProofs.vo', 'Plant.vo', 'PlantRows.vo', 'PlantProfiles.vo', 'Ramp.vo', 'Build.vo']):
         return
     n = 60 if ctx.tier == 'quick' else 400
     specs = util.corpus(ctx.prop) + gen.gen_many_plants(ctx.seed, n, CFG, 'c06_')
